@@ -54,7 +54,7 @@ const (
 )
 
 var opNames = []string{"Size", "Marshal", "MarshalDeterministic", "MarshalAppend", "Methods.Size", "Methods.Marshal", "Has/Get/views", "Range", "WhichOneof",
-	"Equal(equal peer)", "Equal(unequal peer)", "Clone(from)", "Merge(from)", "protojson.Marshal", "prototext.Marshal", "String", "getters", "MessageOf(struct reflection)", "anypb.New", "map/list view Range/Has/Get", "Has/Get on every field incl. unpopulated", "shared Methods.Size", "shared Methods.Marshal", "Type/Descriptor/New/Zero/Interface/IsValid/GetUnknown", "anyutil.New/MarshalFrom"}
+	"Equal(equal peer)", "Equal(unequal peer)", "Clone(from)", "Merge(from)", "protojson.Marshal", "prototext.Marshal", "String", "getters", "MessageOf(struct reflection)", "anypb.New", "map/list view Range/Has/Get", "Has/Get on every field incl. unpopulated", "shared Methods.Size", "shared Methods.Marshal", "Type/Descriptor/New/Zero/Interface/IsValid/GetUnknown", "anyutil.New/MarshalFrom/Unpack"}
 
 // orderFree: the result of these operations is a function of the message
 // alone, so the sequential reader they are compared with may meet any map
@@ -218,6 +218,15 @@ func doOp(m proto.Message, op opInst, env *opEnv) (res string) {
 		b := &anypb.Any{}
 		err3 := anyutil.MarshalFrom(b, m, proto.MarshalOptions{Deterministic: true})
 		res = fmt.Sprintf("%s %x | %s %x %v | %s %x %v", a.TypeUrl, a.Value, other.TypeUrl, other.Value, err2, b.TypeUrl, b.Value, err3)
+		// and back: once through the registered type, once with a type resolver
+		// that knows nothing (the file registry and dynamicpb take over)
+		u1, uerr1 := anyutil.Unpack(b, nil, nil)
+		u2, uerr2 := anyutil.Unpack(b, nil, &protoregistry.Types{})
+		if uerr1 == nil && uerr2 == nil {
+			res += fmt.Sprintf(" | unpacked %v %v", proto.Equal(u1, m), simval.Canon(u2.ProtoReflect()) == simval.Canon(u1.ProtoReflect()))
+		} else {
+			res += fmt.Sprintf(" | unpack errors %v / %v", uerr1, uerr2)
+		}
 		scribble(a.Value)
 		scribble(b.Value)
 		return res
